@@ -1,5 +1,4 @@
-# Table of claimed checks (exec'd by gen_manifest.py).
-NOT_YET = {}
+# exec'd by bin/gen_manifest.py: one check(...) call per claimed property
 
 check("C12", "model_checking",
       "TLC enumerates the complete (rule list x packet) space of Firewall.tla's two families and proves first-match/default-accept/"
